@@ -1,4 +1,4 @@
-import Varpulis.Lemmas.CoordStep
+import Varpulis.Lemmas.CoordAdj
 /-!
 # C32 — coordinator bookkeeping stays consistent under any interleaving
 
@@ -79,6 +79,34 @@ theorem adjacent_deploy_workers_registered (ch : Chooser) (hv : ch.Valid) (s : S
         have := List.find?_eq_none.1 hf w hw
         simp [hid] at this
 
+/-- the placement records stay a well-formed map (unique (group, name) keys; a pipeline id only on running
+records) along every history, guarded or not -/
+theorem records_well_formed (steps : List Step) (t : Nat) : WF (run { timeout := t } steps) :=
+  wf_run steps _ (wf_init t)
+
+/-- **plan/commit adjacency discharges the teardown guard**: a teardown plan committed on the state it was
+planned on is inside the guard (needs only BookInv and the well-formedness above) -/
+theorem adjacent_teardown_in_guard (s : St) (g : GId) (ts : List (Name × WId)) (hwf : WF s) (hb : BookInv s)
+    (hp : planTeardown s g = some ts) : guardFail s (.commitTeardown g ts) = none := by
+  simp [guardFail, tdGuard_of_planTeardown s g ts hwf hb hp]
+
+/-- **plan/commit-adjacent histories**: operations whose commit runs on the state of their plan — teardowns,
+deploys (fresh group id, distinct replica names), truthful heartbeats — interleaved with any steps that are
+inside their own guard keep BookInv, from the empty coordinator, for every valid placement strategy -/
+theorem book_inv_adjacent_histories (ch : Chooser) (hv : ch.Valid) (ops : List AOp) (t : Nat)
+    (hs : sideAll ch { timeout := t } ops = true) : BookInv (runA ch { timeout := t } ops) :=
+  (adjacent_history_preserves ch hv ops _ (bookInv_init t) (wf_init t) hs).1
+
+/-- `reconcile_placements` changes nothing on a consistent state (it only acts after a re-registration has
+wiped a worker's bookkeeping) -/
+theorem reconcile_is_noop_when_consistent (s : St) (hb : BookInv s) (redeploy : Bool) : reconcile s redeploy = s :=
+  reconcile_noop s hb redeploy
+
+/-- … and it repairs the re-registration finding: the witness history becomes consistent again -/
+theorem reconcile_repairs_reregistration :
+    let hist : List Step := [.register 1 5 4 0 0, .commitDeploy 7 [⟨"p", none, 1⟩] [⟨"p", 1, true⟩], .register 1 5 4 0 9]
+    bookInvB (run {} hist) = false ∧ bookInvB (reconcile (run {} hist) true) = true := by decide
+
 /-! ### the full statement is false: one witness per call site (known findings) -/
 
 /-- `deregister_worker` (and the end of `drain_worker`) leaves running placements on the removed worker -/
@@ -151,5 +179,13 @@ example :
       .commitDeploy 8 [⟨"p#0", none, 1⟩] [⟨"p#0", 1, true⟩],
       .heartbeat 1 2 100, .migrateAtomic 7 "p#0" 2 true, .sweep 20000, .commitTeardown 8 [("p#0", 1)], .deregister 1]
     guardedRun {} hist = true ∧ bookInvB (run {} hist) = true := by decide
+
+/-- non-vacuity of the adjacent-history theorem: deploy, truthful heartbeat, sweep, adjacent teardown -/
+example :
+    let ch : Chooser := fun _ ws => ws.head?.map (·.id)
+    let ops : List AOp := [.raw (.register 1 5 4 0 0), .deploy 7 [⟨"p", none, 2⟩] [true, false], .heartbeat 1 50,
+      .raw (.sweep 99999), .teardown 7]
+    sideAll ch {} ops = true ∧ (runA ch {} ops).placements = [] ∧ (runA ch {} ops).workers.map (·.running) = [0] := by
+  decide
 
 end Varpulis.Props.C32
